@@ -1321,6 +1321,12 @@ class Explorer:
         if len(self.samples) < 6:
             self.samples.append(_jsonable(kw))
 
+    def _infeasible(self):
+        try:
+            return self._check(*self._axioms()) == z3.unsat
+        except EngineLimit:
+            return False
+
     # --- driver
     def explore(self, fn):
         global _cur
@@ -1348,11 +1354,18 @@ class Explorer:
                 except PathAbort:
                     self.stats['aborted'] += 1
                 except (EngineLimit, HarnessError):
-                    raise
+                    if self.optimistic and self._infeasible():
+                        self.stats['aborted'] += 1      # junk raised on a path that cannot happen (no pruning in this mode)
+                    else:
+                        raise
                 except z3.Z3Exception as e:
                     raise HarnessError('z3 exception: %s' % e)
                 except Exception as e:       # the analysed code raised something the harness does not expect
                     import traceback
+                    if self.optimistic and self._infeasible():
+                        self.stats['aborted'] += 1
+                        self.stats['paths'] += 1
+                        continue
                     org = 'repo' if getattr(e, '_symx_modelled', False) else exception_origin(e.__traceback__, e)
                     if org == 'engine':
                         raise EngineLimit('unsupported operation on a proxy: %s: %s\n%s' % (type(e).__name__, e, traceback.format_exc()[-1500:]))
